@@ -32,7 +32,7 @@ Theorem C02_accepted_is_linear : forall f, wf_alloc f = true -> forall c bs v re
 Proof. exact decode_ok_linear. Qed.
 Print Assumptions C02_accepted_is_linear.
 
-(* All 86 registered descriptors (transaction with every payload type and
+(* All 102 registered descriptors (transaction with every payload type and
    version, outputs, header/auxpow/block/DposBlock/Confirm, p2p and DPoS
    messages) satisfy the discipline. *)
 Theorem C02_all_formats_wf : forallb wf_alloc all_formats = true.
@@ -40,12 +40,12 @@ Proof. exact all_formats_wf. Qed.
 Print Assumptions C02_all_formats_wf.
 
 (* Hence every registered decoder, on every input: no panic, and allocation
-   within its own K*len + C, uniformly within 30750*len + 16 MiB + 60 (the
+   within its own K*len + C, uniformly within 1872*len + 16 MiB + 60 (the
    constant is one ReadVarString buffer: 16 MiB is common.MaxVarStringLength). *)
 Theorem C02_registry_safe : forall id, In id format_ids -> forall c bs,
   fst (decode (fmt_of id) c bs) <> Panic /\
   snd (decode (fmt_of id) c bs) <= kf (fmt_of id) * len bs + cf (fmt_of id) /\
-  snd (decode (fmt_of id) c bs) <= 30750 * len bs + 16777276.
+  snd (decode (fmt_of id) c bs) <= 1872 * len bs + 16777276.
 Proof. exact registry_safe. Qed.
 Print Assumptions C02_registry_safe.
 
@@ -65,7 +65,7 @@ Print Assumptions C02_count_sized_make_refuted.
    version-9 TransferAsset transaction (no attributes/inputs, one default
    output, one program) decodes to a value and consumes all its bytes. *)
 Example C02_nonvacuous :
-  (kf tx_fmt = 1932 /\ cf tx_fmt = 16777263 /\ wf_alloc tx_fmt = true) /\
+  (kf tx_fmt = 517 /\ cf tx_fmt = 16777263 /\ wf_alloc tx_fmt = true) /\
   (decode confirm_fmt [] (confirm_head ++ [255;255;255;255;255;255;255;127]) = (Err, 142) /\
    decode confirm_fmt [] (confirm_head ++ [255;255;255;255;0;0;0;0]) = (Err, 142)) /\
   (let tx := [9; 2; 0; 0; 0; 1] ++ repeat 7 32 ++ [1;0;0;0;0;0;0;0] ++ [0;0;0;0] ++ repeat 3 21 ++ [0]
